@@ -2,7 +2,7 @@
   Translator phase 4h (app mode): the generated block searches / term lists COMPOSED with the C20 theorems about the model:
   ONE statement from the Rust source (regenerated on every run) to the mathematics.  Helper prefix `ga_`.
 -/
-import Heathcliff.Proofs.GenAppTerms
+import Heathcliff.Proofs.GenAppTerms2
 import Heathcliff.Proofs.C20H
 import Heathcliff.Proofs.C20I
 
@@ -122,5 +122,22 @@ theorem ga_mm_terms_of_new (bs id od N : Nat) (obj : Objective) (pe cl : Nat) (h
   refine ⟨H, hH, ga_mm_output_terms_eq H (by omega) hi1, ga_mm_input_terms_eq H (by omega) ho1, ?_⟩
   intro db dj hdb hdj
   exact List.mem_map.mpr ⟨(db, dj), by simp [pairs, List.mem_flatMap, ga_toHelper]; exact ⟨hdb, hdj⟩, rfl⟩
+
+/-- the output term list of the helper the GENERATED conv2d search returns: the generated list function succeeds and equals the model's list -/
+theorem ga_cv_terms_of_new (S : ConvShape) (N : Nat) (obj : Objective) (hN2 : N < 2^64) (hb : 1 ≤ S.b) (hci : 1 ≤ S.ci) (hco : 1 ≤ S.co)
+    (hkh : 1 ≤ S.kh) (hkw : 1 ≤ S.kw) (hh : S.kh ≤ S.h) (hw : S.kw ≤ S.w) (hN : S.kh * S.kw ≤ N)
+    (hsz : S.b ≤ 2^15 ∧ S.ci ≤ 2^15 ∧ S.co ≤ 2^15 ∧ S.h ≤ 2^15 ∧ S.w ≤ 2^15) :
+    ∃ H, cv_new S.b S.ci S.co S.h S.w S.kh S.kw N obj = .ok H ∧ cv_output_terms H = .ok (cvOutputTerms (ga_toCHelper H)) := by
+  obtain ⟨H, hH, hto, b1, _, h1, _, w1, _, ci1, _, co1, _, hfit⟩ := ga_cv_new_sound S N obj hb hci hco hkh hkw hh hw hN hsz
+  have e : ga_toCHelper H = ⟨S, (cvSearch S N obj).b, (cvSearch S N obj).h, (cvSearch S N obj).w, (cvSearch S N obj).ci,
+      (cvSearch S N obj).co, N⟩ := hto
+  simp only [ga_toCHelper, CHelper.mk.injEq] at e
+  obtain ⟨eS, _⟩ := e
+  have ekh : H.kernel_height = S.kh := by rw [← eS]
+  have ekw : H.kernel_width = S.kw := by rw [← eS]
+  refine ⟨H, hH, ga_cv_output_terms_eq H (by omega) (by omega) (by omega) (by omega) b1 ci1 co1 ?_⟩
+  have : H.batch_block * H.input_channel_block * H.output_channel_block * (H.image_height_block * H.image_width_block)
+      = H.input_channel_block * H.output_channel_block * H.image_width_block * H.image_height_block * H.batch_block := by ring
+  omega
 
 end HC
